@@ -9,12 +9,14 @@ open Fabio Fabio.Model.C03 Fabio.Generated.C03
 theorem matcher_table : matcherTable = ["glob=globMatcher", "iprefix=iPrefixMatcher", "prefix=prefixMatcher"] := by decide
 
 /-- `prefixMatcher` is `HasPrefix(uri, r.Path)`; `iPrefixMatcher` lower-cases both sides first;
-`globMatcher` asks the route's compiled glob (`pathMatch`) -/
+`globMatcher` asks the route's compiled glob (`pathMatch`) through `globMatch`, which is `g.Match(s)` with a
+panic of the library turned into "no match" (the model's glob parameters are total functions) -/
 theorem matcher_bodies :
     prefixMatcherReturns = ["strings.HasPrefix(uri, r.Path)"] ∧ prefixMatcherAssigns = [] ∧
     iPrefixMatcherReturns = ["strings.HasPrefix(lowerURI, lowerPath)"] ∧
     iPrefixMatcherAssigns = ["lowerURI := strings.ToLower(uri)", "lowerPath := strings.ToLower(r.Path)"] ∧
-    globMatcherReturns = ["r.Glob.Match(uri)"] ∧ globMatcherAssigns = [] := by decide
+    globMatcherReturns = ["globMatch(r.Glob, uri)"] ∧ globMatcherAssigns = [] ∧
+    globMatchReturns = ["g.Match(s)"] ∧ globMatchAssigns = ["ok = false"] ∧ globMatchRecovers = 1 := by decide
 
 /-- `Routes.Less(i,j)` = `pathLt rt[j].Path rt[i].Path`: lower-cased paths first, then the paths -/
 theorem routes_less :
@@ -33,7 +35,7 @@ as the model does, sort with `sortHostsReverseHostPort`, and never call `MustCom
 theorem host_selection :
     matchingHostsAssigns = ["host := normalizeHost(req.Host, req.TLS != nil)", "normpat := normalizeHost(pattern, req.TLS != nil)",
       "g, err := globCache.Get(normpat)", "hosts = append(hosts, pattern)", "hosts = sortHostsReverseHostPort(hosts)"] ∧
-    matchingHostsConds = ["err != nil", "g.Match(host)"] ∧ matchingHostsMustCompile = 0 ∧
+    matchingHostsConds = ["err != nil", "globMatch(g, host)"] ∧ matchingHostsMustCompile = 0 ∧
     matchingHostNoGlobAssigns = ["host := normalizeHost(req.Host, req.TLS != nil)", "normpat := normalizeHost(pattern, req.TLS != nil)",
       "hosts = append(hosts, strings.ToLower(pattern))", "hosts = sortHostsReverseHostPort(hosts)"] ∧
     matchingHostNoGlobConds = ["normpat == host"] ∧ matchingHostNoGlobMustCompile = 0 := by decide
